@@ -669,6 +669,13 @@ func registerMisc() {
 		return strings.IndexByte(a[0].(string), byte(asInt64(a[1])))
 	})
 	ext("strings.IndexByte", externals["internal/bytealg.IndexByteString"])
+	ext("strings.Repeat", func(fr *frame, a []value) value {
+		n := asInt64(a[1])
+		if n < 0 {
+			panic(targetPanic{iface{types.Typ[types.String], "strings: negative Repeat count"}})
+		}
+		return strings.Repeat(a[0].(string), int(n))
+	})
 	ext("strings.Index", func(fr *frame, a []value) value { return strings.Index(a[0].(string), a[1].(string)) })
 	ext("strings.Count", func(fr *frame, a []value) value { return strings.Count(a[0].(string), a[1].(string)) })
 	ext("strings.ToLower", func(fr *frame, a []value) value { return strings.ToLower(a[0].(string)) })
